@@ -192,7 +192,12 @@ func (d *c20dumper) value(x adt.Value) string {
 		sub := &c20dumper{r: d.r, ctx: d.ctx, out: map[string]string{}, budget: d.budget, stack: d.stack, schema: d.schema}
 		sub.vertex(x, "")
 		d.budget = sub.budget
-		return "{" + c20join(sub.out) + "}"
+		if len(sub.out) == 1 {
+			if only, ok := sub.out["."]; ok {
+				return only
+			}
+		}
+		return "{" + strings.ReplaceAll(strings.TrimSpace(c20join(sub.out)), "\n", "; ") + "}"
 	case *adt.Num:
 		return c20num(x)
 	case *adt.String:
